@@ -1119,6 +1119,17 @@ impl Store {
     pub fn verif_locks_clean(&self) -> bool {
         self.locks.is_empty() || self.locks.is_clean()
     }
+
+    /// holder and waiting clients (in queue order) of the lock on `path`, if it is locked
+    pub fn verif_lock_state(&self, path: &[RegularKeySegment]) -> Option<(ClientId, Vec<ClientId>)> {
+        let mut current = &self.locks;
+        for elem in path {
+            current = current.get_child(elem)?;
+        }
+        current
+            .value()
+            .map(|l| (l.holder, l.candidates.iter().map(|(c, _)| *c).collect()))
+    }
 }
 
 #[cfg(feature = "verif")]
